@@ -32,7 +32,41 @@ ASSUMPTIONS = ["fits32: 2048 + sum (8 + |k| + |v|) + 16 * #pairs < 2^32 (beyond 
 
 
 def _b(l):
-    return cbytes(l or [])
+    """bytes as a Coq term; runs of >= 12 equal bytes become (rp n c) to keep the term small"""
+    l = l or []
+    parts, cur, i, n = [], [], 0, len(l)
+    while i < n:
+        j = i
+        while j < n and l[j] == l[i]:
+            j += 1
+        if j - i >= 12:
+            if cur:
+                parts.append(cbytes(cur))
+                cur = []
+            parts.append("rp %d %d" % (j - i, l[i]))
+        else:
+            cur += l[i:j]
+        i = j
+    if cur or not parts:
+        parts.append(cbytes(cur))
+    return parts[0] if len(parts) == 1 and parts[0].startswith("[") else "(" + " ++ ".join(parts) + ")"
+
+
+def _file(l):
+    """file bytes; the 2048-byte header is given as run-length encoded (position, slots) pairs"""
+    l = l or []
+    if len(l) < 2048:
+        return _b(l)
+    u32 = lambda o: l[o] | l[o + 1] << 8 | l[o + 2] << 16 | l[o + 3] << 24
+    runs = []
+    for i in range(256):
+        x = (u32(8 * i), u32(8 * i + 4))
+        if runs and runs[-1][1] == x:
+            runs[-1][0] += 1
+        else:
+            runs.append([1, x])
+    h = clist(["(%d,(%d,%d))" % (c, x[0], x[1]) for c, x in runs])
+    return "(hdr %s ++ %s)" % (h, _b(l[2048:]))
 
 
 def to_coq(c):
@@ -45,7 +79,7 @@ def to_coq(c):
                 for q in c.get("queries") or []])
     return "mk %s %s %s %s %s %s %s %s %s %s %s %s %s %s" % (
         kind, kvs, _b(c.get("text")), hashes, cbool(c["hash_agree"]), cbool(c["write_err"] == ""),
-        qs, cbool(c["wrappers_ok"]), _b(c.get("file")), cbool(c["dump_err"] == ""), _b(c.get("dump")),
+        qs, cbool(c["wrappers_ok"]), _file(c.get("file")), cbool(c["dump_err"] == ""), _b(c.get("dump")),
         cbool(c["make_err"] == ""), cbool(c["same"]), cbool(c["lookups_ok"]))
 
 
